@@ -2,7 +2,7 @@
 import sys, time, collections, json
 sys.path.insert(0, '/verif')
 from sim.world import run_scenario
-from sim import gen, oracle
+from sim import gen, oracle, diagnose
 
 def evaluate(sc):
     w, res = run_scenario(sc)
@@ -16,6 +16,7 @@ def evaluate(sc):
     for fn in (oracle.c01, oracle.c02, oracle.c03, oracle.c04, oracle.c05, oracle.c06, oracle.c07, oracle.c09, oracle.c10, oracle.c13, oracle.c14, oracle.c15, oracle.c16):
         V += fn(F)
     V += oracle.c11(F, raised)
+    for v in V: v['cause'] = diagnose.diagnose(F, v)
     return w, res, F, V
 
 if __name__ == '__main__':
@@ -25,7 +26,7 @@ if __name__ == '__main__':
         sc = gen.gen(prof, s)
         w, res, F, V = evaluate(sc)
         ends[res['end'][:30]] += 1
-        for c in set(v['clause'] for v in V):
+        for c in set(v['clause']+' <'+v['cause']+'>' for v in V):
             agg[c] += 1; ex.setdefault(c, s)
     dt = time.time() - t0
     print(f'{prof}: {n} runs {dt:.1f}s = {n/dt:.0f}/s ends={dict(ends)}')
